@@ -6,13 +6,22 @@
        FieldNumbers (negatives backwards, then non-negatives forwards) outputs every entry exactly once in
        ascending NUMERIC order;
      - C09_min / C09_max: the sign-aware scans of FieldTermNumberMin / Max return the least / greatest value.
-   Stated and not yet proved (sampled by the correspondence, which compares every query of every generated
-   history with a brute-force scan of the live documents): C09_scan_full below.  On the pinned code it is
-   false for histories that add a live document id again (known finding 5) and for ranges with a negative
-   lower bound (known finding 6). *)
+   History level (every operation sequence, by induction over the history with a refinement relation between
+   the index state and the set of live documents):
+     - C09_scan_guarded: on every history that never adds a live document id again, term matches and the term
+       list of every field equal the brute-force answers over the live documents, after every prefix;
+     - C09_counts_guarded: when additionally every document has at most one value per field (it is a map in the
+       implementation), FieldTermCounts reports exactly the brute-force (term, count) pairs;
+     - C09_numeric_guarded: under the same guards and for finite values, FieldNumbers is exactly the ascending
+       list of the live values and Min / Max are its first / last element.
+     - C09_range_guarded: under the same guards FieldTermNumberRange(lo, hi) with a non-negative lower bound
+       returns exactly the brute-force buckets of the values in [lo, hi).
+   The unguarded statement C09_scan_full is false on the pinned code (C09_scan_full_refuted: adding a live
+   document id again leaves the old entries, known finding 5); numeric ranges with a negative lower bound
+   are known finding 6 and are compared by the correspondence only. *)
 From Coq Require Import List NArith Bool Arith Sorted Permutation.
 Import ListNotations.
-From Grip Require Import Model.Bytes Model.KVIndex Proofs.KVIndexProofs.
+From Grip Require Import Model.Bytes Model.KVIndex Proofs.KVIndexProofs Proofs.KVIndexRefine Proofs.KVIndexNumeric.
 
 Theorem C09_encoding_order : forall a b, (a < 2 ^ 64)%N -> (b < 2 ^ 64)%N ->
   bcmp (be 8 a) (be 8 b) = N.compare a b.
@@ -41,7 +50,6 @@ Theorem C09_model_uses_sorted_entries : forall s f,
 Proof. intros s f. repeat split. apply pd_sort_sorted. Qed.
 Print Assumptions C09_model_uses_sorted_entries.
 
-Definition same_set {X} (a b : list X) : Prop := forall x, In x a <-> In x b.
 (* full statement (kept visible): every query of every history equals the brute-force answer *)
 Definition C09_scan_full : Prop := forall ops f t,
   same_set (q_match (irun ops) f t) (b_match (sp_run ops) f t) /\
@@ -53,6 +61,53 @@ Proof.
   specialize (H1 2%N). vm_compute in H1. destruct H1 as [H1 _]. destruct (H1 (or_introl eq_refl)).
 Qed.
 Print Assumptions C09_scan_full_refuted.
+
+(* ---------- history level ---------- *)
+Theorem C09_scan_guarded : forall ops, fresh_adds ops = true -> forall f t,
+  same_set (q_match (irun ops) f t) (b_match (sp_run ops) f t) /\
+  same_set (q_terms (irun ops) f) (b_terms (sp_run ops) f).
+Proof.
+  intros ops H f t. pose proof (refinement ops H) as HR. split; [apply match_refines | apply terms_refines]; exact HR.
+Qed.
+Print Assumptions C09_scan_guarded.
+
+Theorem C09_counts_guarded : forall ops, fresh_adds ops = true -> wf_ops ops = true -> forall f,
+  same_set (q_counts (irun ops) f) (b_counts (sp_run ops) f).
+Proof. intros ops H1 H2 f. destruct (refinement_wf ops H1 H2) as [HR HW]. apply counts_exact; assumption. Qed.
+Print Assumptions C09_counts_guarded.
+
+Theorem C09_numeric_guarded : forall ops, fresh_adds ops = true -> wf_ops ops = true -> forall f,
+  Forall (fun p => finite p = true) (b_nums (sp_run ops) f) ->
+  q_numbers (irun ops) f = b_numbers (sp_run ops) f /\
+  (forall m, b_min (sp_run ops) f = Some m -> q_min (irun ops) f = m) /\
+  (forall m, b_max (sp_run ops) f = Some m -> q_max (irun ops) f = m).
+Proof.
+  intros ops H1 H2 f HF. destruct (refinement_wf ops H1 H2) as [HR HW].
+  refine (conj _ (conj _ _)); [apply numbers_exact | intros m; apply min_exact | intros m; apply max_exact]; assumption.
+Qed.
+Print Assumptions C09_numeric_guarded.
+
+(* numeric ranges [lo, hi) whose lower bound is not negative (a negative lower bound is known finding 6) *)
+Theorem C09_range_guarded : forall ops, fresh_adds ops = true -> wf_ops ops = true -> forall f lo hi,
+  Forall (fun p => finite p = true) (b_nums (sp_run ops) f) -> finite lo = true -> finite hi = true -> f_neg lo = false ->
+  q_range (irun ops) f lo hi = b_range (sp_run ops) f lo hi.
+Proof. intros ops H1 H2 f lo hi HF Flo Fhi Hn. destruct (refinement_wf ops H1 H2) as [HR HW]. apply range_exact; assumption. Qed.
+Print Assumptions C09_range_guarded.
+
+(* the guards are met by a history with two fields, removal and re-insertion of a document, removal of a
+   field, negative and positive values; and its answers are not empty *)
+Example C09_guard_nonvacuous :
+  let ops := [IAddField 1; IAddField 2; IAddDoc 7 [(1, TN 4617315517961601024); (2, TS 3)];
+              IAddDoc 8 [(1, TN 13837309855095848960); (2, TS 3)]; IRemoveDoc 7; ICounts 2;
+              IAddDoc 7 [(1, TN 0); (2, TS 4)]; IAddDoc 9 [(1, TN 4617315517961601024)]; IRemoveField 2; IAddField 2;
+              IAddDoc 10 [(2, TS 3)]]%N in
+  fresh_adds ops = true /\ wf_ops ops = true /\ forallb finite (b_nums (sp_run ops) 1%N) = true /\
+  q_numbers (irun ops) 1%N = [13837309855095848960; 0; 4617315517961601024]%N /\
+  q_match (irun ops) 2%N (TS 3%N) = [10%N] /\
+  finite 4607182418800017408%N = true /\ f_neg 0%N = false /\
+  q_range (irun ops) 1%N 0%N 4607182418800017408%N = [(0%N, 1%nat)] /\
+  q_range (irun ops) 1%N 0%N 4617315517961601025%N = [(0%N, 1%nat); (4617315517961601024%N, 1%nat)].
+Proof. vm_compute. auto 10. Qed.
 
 (* the 0 / -5 witness of the Max defect repaired by the fix: commit: the fixed scan returns 0 *)
 Example C09_max_zero_negative :
